@@ -28,6 +28,10 @@ type qLogReader struct {
 
 	// currentFile is the index of the current file.
 	currentFile int
+
+	// seekFellBack is true if the last call to seekTS hasn't found the record
+	// and has set the position to the start instead.
+	seekFellBack bool
 }
 
 // newQLogReader initializes a qLogReader instance with the specified files.
@@ -64,6 +68,8 @@ func newQLogReader(ctx context.Context, logger *slog.Logger, files []string) (*q
 // timestamp.  If the record is found, it sets qLogReader's position to point
 // to that line, so that the next ReadNext call returned this line.
 func (r *qLogReader) seekTS(ctx context.Context, timestamp int64) (err error) {
+	r.seekFellBack = false
+
 	for i := len(r.qFiles) - 1; i >= 0; i-- {
 		q := r.qFiles[i]
 		_, _, err = q.seekTS(ctx, r.logger, timestamp)
@@ -77,6 +83,8 @@ func (r *qLogReader) seekTS(ctx context.Context, timestamp int64) (err error) {
 			} else if errors.Is(err, errTSTooLate) {
 				// Just seek to the start then.  timestamp is probably between
 				// the end of the previous one and the start of this one.
+				r.seekFellBack = true
+
 				return r.SeekStart()
 			} else if errors.Is(err, errTSNotFound) {
 				return err
